@@ -140,6 +140,12 @@ fn gen_cell(rng: &mut Rng, lang: LangId, bits: u32) -> Cell {
         if rng.chance(1, 4) {
             tm.insert("Paged".to_string(), "Paged".to_string());
         }
+        // a mapped generic type stands for the whole type, arguments included: the arguments it is written with in the
+        // source (`Envelope<HashMap<T, u8>, ()>`: a map keyed by a type parameter is refused by the TypeScript backend, a unit argument makes the Swift backend emit CodableVoid) are not
+        // looked at; the source only has that field when the mapping is there
+        if rng.chance(1, 3) {
+            tm.insert("Envelope".to_string(), "MappedEnvelope".to_string());
+        }
         if matches!(lang, LangId::Ts | LangId::Go | LangId::Python) && rng.coin() {
             tm.insert("Vec<String>".to_string(), "MappedStrings".to_string());
         }
@@ -275,7 +281,25 @@ pub fn run(ctx: &Ctx) -> (Spec, Report) {
             only_cli.file_only = LangCfg::default();
             eff = effective(&only_cli);
         }
-        let expected = run_lib(&[SrcFile { path: "src_root/my_crate/src/lib.rs".into(), source: SOURCE.into() }], c.lang, &eff, false, &[]);
+        let envelope = eff.type_mappings.contains_key("Envelope");
+        let source = if envelope { format!("{SOURCE}#[typeshare]\npub struct Carrier<T> {{\n    pub wrapped: Envelope<HashMap<T, u8>, ()>,\n    pub wrapped_more: Vec<Envelope<(), HashMap<Vec<T>, ()>>>,\n    pub carried: T,\n}}\n") } else { SOURCE.to_string() };
+        if envelope {
+            write_tree(&root, &[SrcFile { path: "proj/a/b/c/src_root/my_crate/src/lib.rs".into(), source: source.clone() }]);
+        }
+        let expected = run_lib(&[SrcFile { path: "src_root/my_crate/src/lib.rs".into(), source: source.clone() }], c.lang, &eff, false, &[]);
+        if envelope {
+            rep.count("cells_with_a_mapped_generic_type_over_untranslatable_arguments", 1);
+            // (judged against the same settings without that struct: a configuration that cannot generate anything, like
+            // Scala without a package, says nothing about the mapping)
+            let baseline = run_lib(&[SrcFile { path: "src_root/my_crate/src/lib.rs".into(), source: SOURCE.into() }], c.lang, &eff, false, &[]);
+            if matches!(baseline, LibOutcome::Ok(_)) && !matches!(expected, LibOutcome::Ok(_) | LibOutcome::Panic { .. }) {
+                rep.violate(
+                    format!("C20|{}|file-only-setting-not-applied|type_mappings|arguments-of-a-mapped-generic-type-examined", c.lang.name()),
+                    format!("`Envelope` is mapped to `MappedEnvelope`, yet `Envelope<HashMap<T, u8>, ()>` is not generated: {}", expected.describe()),
+                    json!({"language": c.lang.name(), "effective": eff.to_json(), "source": source}),
+                );
+            }
+        }
         // every other cell finds an output left by an earlier run under other settings of the same length (a two-letter
         // prefix replaced by another, `com.a` by `org.b`): what is generated now must not depend on it
         if i % 2 == 1 {
@@ -342,7 +366,7 @@ pub fn run(ctx: &Ctx) -> (Spec, Report) {
                 for (from, to) in &eff.type_mappings {
                     // (a name mapped to itself is judged by the byte comparison below: its spelling in the output is the
                     // type's own, which Go may re-case under an acronym table)
-                    if ["Stamp", "Blob", "UserId"].contains(&from.as_str()) && from != to {
+                    if ["Stamp", "Blob", "UserId", "Envelope"].contains(&from.as_str()) && from != to {
                         rep.count("file_only_settings_checked_on_text", 1);
                         if !got.contains(to.as_str()) {
                             rep.violate(format!("C20|{lname}|file-only-setting-not-applied|type_mappings"), format!("type mapping {from} -> {to} leaves no trace in the output"), detail(json!({"mapping": [from, to]})));
@@ -500,7 +524,7 @@ pub fn run(ctx: &Ctx) -> (Spec, Report) {
     let _ = std::fs::remove_dir_all(&scratch);
     let spec = Spec {
         level: "exploration",
-        rule: format!("{} cells of the real binary: for each language the full {{absent, present}} x {{absent, present}} matrix on the command line x in the file for every dual option (swift-prefix; kotlin-prefix x java-package x module-name; scala-package x scala-module-name; go-package), combined with random file-only tables (type_mappings incl. entries that map a name to itself, default_decorators, default_generic_constraints, codablevoid_constraints, uppercase_acronyms, no_pointer_slice), the config found by -c, by ancestor search from cwd depth 0-3, or absent, half of the runs with a second, losing configuration (one or two levels further up the ancestor chain, or in the working directory when -c names another file); every other cell starting over an output of equal length left by other settings; oracle: output bytes equal the library pipeline run with cli ?? file ?? default; plus {n_g} generate-config runs (random option subsets, default and explicit path): behavioural round trip for all 6 languages and a second -g under strace that must fail without touching the file; distinct = (language, per-option source, discovery)", cells.len()),
+        rule: format!("{} cells of the real binary: for each language the full {{absent, present}} x {{absent, present}} matrix on the command line x in the file for every dual option (swift-prefix; kotlin-prefix x java-package x module-name; scala-package x scala-module-name; go-package), combined with random file-only tables (type_mappings incl. entries that map a name to itself and a mapped generic type written with arguments the backend would refuse, default_decorators, default_generic_constraints, codablevoid_constraints, uppercase_acronyms, no_pointer_slice), the config found by -c, by ancestor search from cwd depth 0-3, or absent, half of the runs with a second, losing configuration (one or two levels further up the ancestor chain, or in the working directory when -c names another file); every other cell starting over an output of equal length left by other settings; oracle: output bytes equal the library pipeline run with cli ?? file ?? default; plus {n_g} generate-config runs (random option subsets, default and explicit path): behavioural round trip for all 6 languages and a second -g under strace that must fail without touching the file; distinct = (language, per-option source, discovery)", cells.len()),
         assumptions: vec![
             "the library driver's construction of backend structs from a configuration mirrors cli/src/main.rs::language()".into(),
             "Scala without any package panics and Go without any package is refused: both are accepted outcomes here (the panic is C07's)".into(),
